@@ -149,23 +149,56 @@ def table_facts():
 
 
 def child_schema(versions, P):
+    """Every presentation type's child-value schema: total, and it accepts {value type: payload}
+    exactly when that value type is listed for the presentation type (or for S_CUSTOM) in this
+    version's table and the payload satisfies the serial API's rule for that value type.  The
+    schemas of all *other* versions are built first in the same process (a controller can run
+    gateways of several versions): the answer for this version must not depend on that."""
     def fn(w):
         import voluptuous as vol
         from mysensors.sensor import ChildSensor
+        from verifspec import serial_api as S
         version = w.pick(versions, "version")
         const = C.const_for(version)
         t = w.pick(sorted(int(m) for m in const.Presentation), "presentation_type")
+        for other in versions:
+            if other == version:
+                continue
+            oc = C.const_for(other)
+            for t2 in {t, int(oc.Presentation.S_CUSTOM)}:
+                if t2 in [int(m) for m in oc.Presentation]:
+                    try:
+                        w.call(w.new(ChildSensor, 0, t2, "").validate, other, {})
+                    except Exception as exc:
+                        w.escaped(exc, f"child schema of version {other} raised")
+        listed = sorted({int(x) for x in const.VALID_TYPES[const.Presentation(t)]} |
+                        {int(x) for x in const.VALID_TYPES[const.Presentation.S_CUSTOM]})
         vt = w.fresh_int("value_type")
-        payload = w.fresh_str("payload", P)
+        kind = w.pick(["short", "numeric"], "payload_kind")
+        if kind == "short":
+            payload = w.fresh_str("payload", P)
+        else:
+            payload = w.fresh_str("payload", P + 2, P + 1, alphabet=[(43, 57)])
         w.info = {"version": version, "presentation_type": t, "value_type": vt, "payload": payload}
         child = w.new(ChildSensor, 0, t, "")
         try:
             w.call(child.validate, version, {vt: payload})
-            w.goal("valid")
+            got = True
         except vol.Invalid:
-            w.goal("invalid")
+            got = False
         except Exception as exc:
             w.escaped(exc, "child schema validation raised")
+        if not w.is_true(C.one_of(w, vt, listed) if w.symbolic else vt in listed):
+            w.check(not got, "child schema accepted a value type that is not listed for the "
+                             "presentation type in this version")
+            w.goal("invalid")
+            return
+        vt_c = C.concrete_int(w, vt, listed)
+        rule = S.set_rule(version, vt_c)
+        want = w.truth(w.call(S.payload_ok, rule, payload, None))
+        w.check(got == want, "child schema and the serial API disagree on a listed value type"
+                             f" [{'accepted by the API, rejected by the schema' if want else 'rejected by the API, accepted by the schema'}]")
+        w.goal("valid" if got else "invalid")
     return fn
 
 
@@ -183,9 +216,12 @@ def build(tier):
         Harness("table-facts", table_facts(), {"versions": C.VERSIONS}, goals=["tables"],
                 doc="sub-type sets grow with the version; every sub-type has a payload rule"),
         Harness("child-schema", child_schema(C.VERSIONS, 1 if q else 2),
-                {"value_type": "unbounded int", "payload_max": 1 if q else 2},
-                goals=["valid", "invalid"],
-                doc="ChildSensor.get_schema builds for every presentation type; validate totals"),
+                {"value_type": "unbounded int", "payload": f"any text <= {1 if q else 2} code points, "
+                 f"or {2 if q else 3}..{3 if q else 4} characters of [+,-./0-9]",
+                 "primed_with": "the schemas of the other four versions, built first"},
+                goals=["valid", "invalid"], timeout_ms=30000,
+                doc="ChildSensor schema: total; accepts <=> type listed in this version's table "
+                    "and payload satisfies the serial-API rule; independent of other versions"),
     ]
     return {
         "harnesses": hs,
